@@ -22,6 +22,13 @@ MAX_STEPS = 150
 def check_run(spec):
     algo = spec["algo"]
     labels = ["algo=" + algo, "source=" + spec["source"]]
+    if spec.get("prime_cone") is not None:
+        # another instance with a different generic cone of the same shape is constructed first in the same
+        # process (state shared between instances must not leak into the checked run)
+        prime = dict(spec, cone=spec["prime_cone"])
+        prime.pop("prime_cone")
+        ha.build(prime)
+        labels.append("primed-by-other-instance")
     alg, ctx = ha.build(spec)
     Y = ctx.truth
     K, m = Y.shape
@@ -91,7 +98,45 @@ def st_spec(draw, algo, sources=("stub", "stub", "fast")):
     return spec
 
 
+@st.composite
+def st_facetwise_spec(draw):
+    """VOGP on a generic (asymmetric) K = m cone with pairs of designs whose facet margins are each just above the
+    true slack eps*u* (factors 1.05..2 per facet): the better one must keep the other out of P.  A second instance
+    with another generic cone of the same shape is built first in the same process."""
+    import numpy as np
+
+    from vverif import gen
+    from vverif.harness import data as hdata
+
+    m = draw(st.sampled_from([2, 2, 3]))
+    cone = draw(gen.st_diag_cone(m, 0))
+    other = draw(gen.st_diag_cone(m, 0))
+    if cone["kind"] != "diag" or other["kind"] != "diag":
+        cone = {"kind": "diag", "m": 2, "phi": [0.3, 1.2]}
+        other = {"kind": "diag", "m": 2, "phi": [1.1, 0.4]}
+        m = 2
+    W = gen.cone_W(cone)
+    Wn = W / np.linalg.norm(W, axis=1)[:, None]
+    z, _, _ = geom.ldp(Wn, np.ones(m))
+    eps = draw(st.sampled_from([0.1, 0.3]))
+    s = eps * z / np.linalg.norm(z)
+    Y = [[round(draw(st.floats(-0.3, 0.3)), 3) for _ in range(m)]]
+    n_pairs = draw(st.integers(1, 3))
+    for _ in range(n_pairs):
+        ref = np.array(Y[draw(st.integers(0, len(Y) - 1))])
+        c = np.array([draw(st.sampled_from([1.05, 1.2, 1.4, 2.0])) for _ in range(m)])
+        step = np.linalg.solve(Wn, c * (Wn @ s))
+        Y.append((ref + draw(st.sampled_from([1, -1])) * step).tolist())
+    K = len(Y)
+    stub = draw(gen_runs.st_stub(m))
+    return {"algo": "VOGP", "cone": cone, "prime_cone": other, "eps": eps, "delta": 0.1, "noise_var": 0.01, "contraction": draw(st.sampled_from([1, 4])),
+            "X": hdata.grid_inputs(K, 2).tolist(), "Y": Y, "seed": draw(st.integers(0, 2**31 - 1)), "source": "stub", "stub": stub,
+            "batch": draw(st.integers(1, 2))}
+
+
 COMPONENTS = [
     Component("vogp_runs", check_run, strategy=lambda: st_spec("VOGP"), quick=220, thorough=8000, rule="VOGP, cones incl. K>m and 3-D, stub and real correlated GP"),
+    Component("vogp_facetwise_just_above_slack", check_run, strategy=st_facetwise_spec, quick=200, thorough=6000,
+              rule="generic asymmetric K=m cones; design pairs whose facet margins are 1.05..2 x the true slack; a second VOGP instance with another cone built first"),
     Component("epal_runs", check_run, strategy=lambda: st_spec("EpsilonPAL"), quick=160, thorough=6000, rule="eps-PAL, m=2..3, stub and real independent GP"),
 ]
